@@ -13,6 +13,7 @@ import ZlModel.Ip
 import ZlModel.Rsa
 import ZlModel.Tld
 import ZlModel.Config
+import ZlModel.Cli
 open Zl Zl.Proto
 
 namespace Zl.Driver
@@ -324,6 +325,23 @@ def opCfgSeq (fields : List String) : String :=
     "s " ++ "|".intercalate (seen.map (fun d => showProbe true (configure (seqDoc d) probeSpec "e_cfg_probe")))
   | _ => "bad-op"
 
+
+/-! ### CLI ops -/
+
+def opCliDisp (fields : List String) : String :=
+  match fields with
+  | [inform, pt, b64] =>
+    match dispatch inform (if pt == "-" then none else some pt) (b64 == "1") with
+    | .cert => "cert" | .crl => "crl" | .fail => "fail"
+  | _ => "bad-op"
+
+def opCliSum (fields : List String) : String :=
+  match fields with
+  | [sts] =>
+    let results := (splitList sts ",").map (fun s => s.toInt?.getD 0)
+    ",".intercalate ((summaryTable (Generated.statusLabelTable.map (·.2)) results).map (fun p => toString p.1 ++ ":" ++ toString p.2))
+  | _ => "bad-op"
+
 def step (line : String) : String :=
   match line.splitOn "\t" with
   | "fw" :: rest => opFw rest
@@ -340,6 +358,8 @@ def step (line : String) : String :=
   | "tldlint" :: rest => opTld "tldlint" rest
   | "cfg" :: rest => opCfg rest
   | "cfgseq" :: rest => opCfgSeq rest
+  | "clidisp" :: rest => opCliDisp rest
+  | "clisum" :: rest => opCliSum rest
   | "enc" :: rest => opEnc rest
   | "dec" :: rest => opDec rest
   | "src" :: rest => opSrc rest
